@@ -38,6 +38,8 @@ func (n *SNode) Eval() string {
 	}
 	x := n.Kids[0].Eval()
 	switch n.Op {
+	case "unknown":
+		return x
 	case "bold":
 		return style.Bold(x)
 	case "italic":
@@ -160,6 +162,8 @@ func (n *SNode) Ref() []vorc.Cell {
 		return outer(append(u, plainCells(Superscript(num))...), fg(primary))
 	}
 	switch n.Op {
+	case "unknown":
+		return x // an element the renderer has no style for (n.Text names it): its content is styled by what is around it
 	case "bold":
 		return outer(x, func(a *vorc.Attr) { a.Bold = true })
 	case "italic":
@@ -198,7 +202,7 @@ func (n *SNode) Depth() int {
 			d = kd
 		}
 	}
-	if n.Op == "text" || n.Op == "cat" {
+	if n.Op == "text" || n.Op == "cat" || n.Op == "unknown" {
 		return d
 	}
 	return d + 1
